@@ -12,7 +12,7 @@ OPN = {'LINE': 0, 'SETC': 1, 'COPY': 2, 'ADDC': 3, 'SUBC': 4, 'JZ': 5, 'JMP': 6,
 
 
 # ------------------------------------------------------------------------------------------------ shapes
-LOOPY = {'loop_bound_assigned', 'while_dec', 'goto_back', 'goto_into_loop', 'goto_out_of_loop', 'stop_mid', 'call_in_loop', 'call_two_args_out', 'call_nested_arg', 'callee_stop', 'nested_loops', 'while_in_loop'}
+LOOPY = {'nested_loops_oneline', 'call_in_loop_oneline', 'loop_bound_assigned', 'while_dec', 'goto_back', 'goto_into_loop', 'goto_out_of_loop', 'stop_mid', 'call_in_loop', 'call_two_args_out', 'call_nested_arg', 'callee_stop', 'nested_loops', 'while_in_loop'}
 
 
 def shapes(tier, seed):
@@ -41,6 +41,13 @@ def shapes(tier, seed):
     L.append(('nested_loops', P([('set', 'n', 0), ('set', 'm', 1), ('loop', 'n', [('loop', 'm', [('add', 'x0', 'x0', 2)])])])))
     L.append(('while_in_loop', P([('set', 'n', 0), ('loop', 'n', [('set', 'w', 1), ('while', 'w', [('sub', 'w', 'w', 2), ('add', 'x0', 'x0', 3)])])])))
     L.append(('include_defs', P([('set', 'y', 0), ('call', 'x1', 'f', [('var', 'y')]), ('add', 'x1', 'x1', 1)], [dict(f1, body=[('add', 'x0', 'a', 2)])]), True))
+    # an earlier definition stays reachable after its name is redefined with more variables
+    L.append(('redefinition_reachable', P([('call', 'r', 'g', [('lit', 0)]), ('call', 's', 'f', [('lit', 1)])],
+                                          [dict(f1, body=[('add', 'x0', 'a', 2)]), {'name': 'g', 'params': ['p'], 'out': None, 'body': [('call', 'x0', 'f', [('var', 'p')])]},
+                                           {'name': 'f', 'params': ['a'], 'out': None, 'body': [('copy', 'b', 'a'), ('copy', 'c', 'b'), ('sub', 'x0', 'c', 3)]}])))
+    # non-canonical layout: the whole program on one line (C01/C16 quantify over every layout; C07 does not)
+    L.append(('nested_loops_oneline', P([('set', 'n', 0), ('set', 'm', 1), ('loop', 'n', [('loop', 'm', [('add', 'x0', 'x0', 2)])])]), 'compact'))
+    L.append(('call_in_loop_oneline', P([('set', 'n', 0), ('loop', 'n', [('call', 'y', 'f', [('var', 'y')])])], [dict(f1, body=[('add', 'x0', 'a', 1)])]), 'compact'))
     out = [(n, p, (rest[0] if rest else False)) for (n, p, *rest) in L]
     if tier == 'thorough':
         out += generated_family(seed)
@@ -116,26 +123,27 @@ def nlits(prog):
 _native = {}
 
 
-def native_tool(wd):
-    """build native/theoc_dump.cpp against /repo's working tree (real libstdc++)"""
-    if wd in _native: return _native[wd]
-    exe = os.path.join(wd, 'theoc_dump')
+def native_tool(wd, sanitize=False):
+    """build native/theoc_dump.cpp against /repo's working tree (real libstdc++); sanitize: ASan+UBSan+libstdc++ assertions (replay builds)"""
+    if (wd, sanitize) in _native: return _native[(wd, sanitize)]
+    exe = os.path.join(wd, 'theoc_dump' + ('_san' if sanitize else ''))
     R = fw.REPO
     srcs = [os.path.join(fw.VERIF, 'native', 'theoc_dump.cpp')] + [os.path.join(R, 'Compiler/src', f) for f in ('ast.cpp', 'parse.cpp', 'gen.cpp', 'compiler.cpp', 'scan.cpp', 'macro.cpp', 'ParserGenerator/grammar.cpp', 'ParserGenerator/lrdea.cpp')] + \
            ['-x', 'c++', os.path.join(R, 'Compiler/src/lex.yy.c'), '-x', 'none'] + [os.path.join(R, 'VM/src', f) for f in ('vm.cpp', 'program.cpp', 'instr.cpp')]
-    p = subprocess.run(['g++', '-std=c++20', '-O1', '-fno-access-control', '-w', '-I' + R, '-I' + os.path.join(R, 'Compiler/include')] + srcs + ['-o', exe], stdout=subprocess.PIPE, stderr=subprocess.PIPE, text=True)
+    san = ['-fsanitize=address,undefined', '-fno-sanitize-recover=undefined', '-D_GLIBCXX_ASSERTIONS', '-g'] if sanitize else []
+    p = subprocess.run(['g++', '-std=c++20', '-O1', '-fno-access-control', '-w', '-I' + R, '-I' + os.path.join(R, 'Compiler/include')] + san + srcs + ['-o', exe], stdout=subprocess.PIPE, stderr=subprocess.PIPE, text=True)
     if p.returncode != 0: raise e1.BuildError('native build of /repo failed: ' + p.stderr[-1500:])
-    _native[wd] = exe
+    _native[(wd, sanitize)] = exe
     return exe
 
 
-def native_compile(wd, files, main='m', run_steps=None, tag='p'):
-    exe = native_tool(wd)
+def native_compile(wd, files, main='m', run_steps=None, tag='p', sanitize=False):
+    exe = native_tool(wd, sanitize)
     args = [exe, main]
     for name, text in files.items():
         path = os.path.join(wd, '%s_%s.theo' % (tag, re.sub(r'\W', '_', name)))
         open(path, 'w').write(text); args += [name, path]
-    env = dict(os.environ)
+    env = dict(os.environ, ASAN_OPTIONS='detect_leaks=0')
     if run_steps: env['VERIF_RUN'] = str(run_steps)
     p = subprocess.run(args, stdout=subprocess.PIPE, stderr=subprocess.PIPE, text=True, env=env, timeout=120)
     if p.returncode != 0: return {'crash': True, 'rc': p.returncode, 'stderr': p.stderr[-800:]}
@@ -143,8 +151,24 @@ def native_compile(wd, files, main='m', run_steps=None, tag='p'):
 
 
 # ------------------------------------------------------------------------------------------------ data header
+class ShapeMismatch(Exception):
+    pass
+
+
+def wf_only_data(name, dump):
+    """data header sufficient for h_wf when the reference side cannot be matched to the compiler output"""
+    code = dump['code']
+    fs = [row[1] for row in code if row[0] == 6]
+    nsm = len(dump['stack_maps'])
+    o = ['// generated by lib/ctv.py (WF only) for shape %s' % name]
+    o.append('#define CTV_WF_ONLY 1\n#define CTV_NCODE %d\n#define CTV_NLIT 0\n#define CTV_NR %d\n#define CTV_DW %d\n#define CTV_MAXFS %d\n#define CTV_MAXARG 3\n#define CTV_LIT_BOUNDS\n#define CTV_NSMAPS %d' % (len(code), max(1, nsm), sum(fs) + 1, max(fs + [1]), max(1, nsm)))
+    o.append('static const int VMCODE[CTV_NCODE][6] = {%s};' % ', '.join('{%d,%d,%d,%d,0,0}' % tuple(r) for r in code))
+    o.append('static const int SMAP_MAXREG[CTV_NSMAPS] = {%s};' % ', '.join(str(max([int(k) for k in m['map']] + [-1])) for m in dump['stack_maps']))
+    return '\n'.join(o) + '\n', {'ncode': len(code), 'nlit': 0, 'dw': sum(fs) + 1, 'routines': max(1, nsm), 'maxv': 1, 'maxfs': max(fs + [1])}
+
+
 def make_data(name, prog, include, dump, kv, nev):
-    rc = TL.RefCompiler(prog, include)
+    rc = TL.RefCompiler(prog, include is True, include == 'compact')
     routines = TL.resolve_calls(rc)
     nl = nlits(prog)
     code = dump['code']
@@ -157,7 +181,7 @@ def make_data(name, prog, include, dump, kv, nev):
         elif op == 3 and -c in sent: which, k = -3, sent[-c]
         rows.append((op, a, b, c, which, k))
     smaps = dump['stack_maps']
-    if len(smaps) != len(routines): raise Exception('routine count mismatch: %d stack maps vs %d reference routines' % (len(smaps), len(routines)))
+    if len(smaps) != len(routines): raise ShapeMismatch('routine count mismatch: %d stack maps vs %d reference routines' % (len(smaps), len(routines)))
     maxv = max(len(r['vars']) for r in routines)
     maxrc = max(len(r['code']) for r in routines)
     maxp = max([len(r['params']) for r in routines] + [1])
@@ -190,7 +214,8 @@ def make_data(name, prog, include, dump, kv, nev):
     o.append('// generated by lib/ctv.py for shape %s' % name)
     o.append('#define CTV_NCODE %d\n#define CTV_NLIT %d\n#define CTV_KV %d\n#define CTV_F %d\n#define CTV_NR %d\n#define CTV_MAXV %d\n#define CTV_MAXDEPTH %d' % (len(code), nl, kv, kv, len(routines), maxv, len(routines)))
     o.append('#define CTV_DW %d\n#define CTV_MAXFS %d\n#define CTV_MAXARG %d\n#define CTV_NEV %d\n#define CTV_NSITES %d\n#define CTV_LIT_BOUNDS' % (dw, maxfs, max(maxarg, 1), nev, len(sites)))
-    o.append('#define MINISTL_CTV 1')
+    o.append('#define MINISTL_CTV 1\n#define CTV_NSMAPS %d' % len(smaps))
+    o.append('static const int SMAP_MAXREG[CTV_NSMAPS] = {%s};' % ', '.join(str(max([int(k) for k in m['map']] + [-1])) for m in smaps))
     o.append('static const int VMCODE[CTV_NCODE][6] = {%s};' % ', '.join('{%d,%d,%d,%d,%d,%d}' % r for r in rows))
     o.append('static const int REFCODE[CTV_NR][%d][5] = {%s};' % (maxrc, ', '.join('{' + ', '.join('{%d,%d,%d,%d,%d}' % t for t in rr) + '}' for rr in refrows)))
     o.append('static const int REFNPARAMS[CTV_NR] = {%s};' % ', '.join(str(len(r['params'])) for r in routines))
@@ -200,8 +225,83 @@ def make_data(name, prog, include, dump, kv, nev):
     o.append('static const int VARREG[CTV_NR][CTV_MAXV] = {%s};' % ', '.join('{' + ', '.join(map(str, v)) + '}' for v in varreg))
     o.append('static const int SITE_IDX[%d] = {%s};' % (len(sites) + 1, ', '.join(str(s[0]) for s in sites) + (', 0' if sites else '0')))
     o.append('static const int SITE_FILE[%d] = {%s};' % (len(sites) + 1, ', '.join(str({'m': 0, 'i': 1}.get(s[1], 2)) for s in sites) + (', 0' if sites else '0')))
+    o += sim_tables(routines, code, smaps, refrows, maxv, maxrc)
     o.append('static const int SITE_LINE[%d] = {%s};' % (len(sites) + 1, ', '.join(str(s[2]) for s in sites) + (', 0' if sites else '0')))
     return '\n'.join(o) + '\n', routines, {'ncode': len(code), 'nlit': nl, 'dw': dw, 'routines': len(routines), 'maxv': maxv, 'maxfs': maxfs}
+
+
+def sim_tables(routines, code, smaps, refrows, maxv, maxrc):
+    """tables for the per-construct simulation obligations (h_sim): instruction pointer of every reference position, VM register of every
+    reference variable (user variables and loop counters from the stack map, argument temporaries from the ARG instructions), live ranges"""
+    nr = len(routines)
+    # routine starts: code[0] PREPARE; per definition: JMP over, body; then the main code
+    starts = []; idx = 1
+    for r in range(nr - 1):
+        if code[idx][0] != 4: raise Exception('expected JMP over definition %d at %d' % (r, idx))
+        starts.append(idx + 1); idx = idx + code[idx][1]
+    starts.append(idx)
+    ipmap = []
+    for r in range(nr):
+        ip = starts[r]; row = []
+        for t in refrows[r]:
+            row.append(ip); ip += t[4]
+        ipmap.append(row + [0] * (maxrc - len(row)))
+    fullreg = []; live = []
+    for r, rt in enumerate(routines):
+        m = {v: int(k) for k, v in smaps[r]['map'].items()}
+        loops = sorted(int(k) for k, v in smaps[r]['map'].items() if v.startswith('Loop Variable'))
+        regs = {}; lc = 0; temps_def = {}; temps_use = {}
+        hidden_loop = []
+        for pc, (op, a, b, c) in enumerate(rt['code']):
+            if op == 'COPY' and rt['vars'][a].startswith('%') and pc + 1 < len(rt['code']) and rt['code'][pc + 1][0] == 'JZ' and rt['code'][pc + 1][1] == a:
+                hidden_loop.append(a)
+        for i, v in enumerate(rt['vars']):
+            if not v.startswith('%'): regs[i] = m.get(v, -2)
+        for k, a in enumerate(hidden_loop):
+            regs[a] = loops[k] if k < len(loops) else -2
+        for pc, (op, a, b, c) in enumerate(rt['code']):
+            if op == 'CALL':
+                ip = ipmap[r][pc]
+                for k, av in enumerate(c):
+                    ins = code[ip + 1 + k]
+                    if ins[0] != 7: raise Exception('expected ARG at %d' % (ip + 1 + k))
+                    regs[av] = ins[2]; temps_use[av] = pc
+            if op in ('COPY', 'SETC', 'CALL') and rt['vars'][a].startswith('%') and a not in hidden_loop: temps_def[a] = pc
+        fullreg.append([regs.get(i, -1) for i in range(len(rt['vars']))] + [-1] * (maxv - len(rt['vars'])))
+        lv = []
+        for pc in range(len(rt['code']) + 1):
+            mask = 0
+            for i in range(len(rt['vars'])):
+                if regs.get(i, -1) < 0: continue
+                if i in temps_use:
+                    if not (temps_def.get(i, 10**9) < pc <= temps_use[i]): continue
+                mask |= 1 << i
+            lv.append(mask)
+        live.append(lv + [0] * (maxrc + 1 - len(lv)))
+    fsize = [0] * nr
+    fsize[nr - 1] = code[0][1]
+    for row in code[1:]:
+        if row[0] == 6 and 0 <= row[2] < nr: fsize[row[2]] = row[1]
+    callers = []
+    for r, rt in enumerate(routines):
+        for pc, (op, a, b, c) in enumerate(rt['code']):
+            if op == 'CALL': callers.append((r, pc, b, a))
+    ops = [(r, pc) for r in range(nr) for pc in range(len(routines[r]['code']))]
+    o = []
+    o.append('#define SIM_NOPS %d\n#define SIM_MAXRC %d\n#define SIM_NCALLERS %d\n#define CTV_MAXCOST %d' % (len(ops), maxrc, max(1, len(callers)), max(t[4] for rr in refrows for t in rr)))
+    o.append('static const int SIM_R[SIM_NOPS] = {%s};' % ', '.join(str(x[0]) for x in ops))
+    o.append('static const int SIM_PC[SIM_NOPS] = {%s};' % ', '.join(str(x[1]) for x in ops))
+    o.append('static const int IPMAP[CTV_NR][SIM_MAXRC] = {%s};' % ', '.join('{' + ', '.join(map(str, r)) + '}' for r in ipmap))
+    o.append('static const int FULLREG[CTV_NR][CTV_MAXV] = {%s};' % ', '.join('{' + ', '.join(map(str, r)) + '}' for r in fullreg))
+    o.append('static const unsigned LIVE[CTV_NR][SIM_MAXRC + 1] = {%s};' % ', '.join('{' + ', '.join('%uU' % x for x in r) + '}' for r in live))
+    o.append('static const int FSIZE[CTV_NR] = {%s};' % ', '.join(map(str, fsize)))
+    cal = callers or [(0, 0, -1, 0)]
+    o.append('static const int CALLER_R[SIM_NCALLERS] = {%s};' % ', '.join(str(x[0]) for x in cal))
+    o.append('static const int CALLER_PC[SIM_NCALLERS] = {%s};' % ', '.join(str(x[1]) for x in cal))
+    o.append('static const int CALLER_CALLEE[SIM_NCALLERS] = {%s};' % ', '.join(str(x[2]) for x in cal))
+    o.append('static const int CALLER_TGT[SIM_NCALLERS] = {%s};' % ', '.join(str(x[3]) for x in cal))
+    o.append('static const int REFLEN[CTV_NR] = {%s};' % ', '.join(str(len(r['code'])) for r in routines))
+    return o
 
 
 # ------------------------------------------------------------------------------------------------ jobs
@@ -212,7 +312,7 @@ def build_jobs(prop, tier, seed, wd, entries=('h_ctv',), tags=None, only=None):
     if only: fam = [s for s in fam if s[0] in only]
     jobs = []; meta = {}; problems = []
     for (name, prog, include) in fam:
-        files = TL.Printer(prog, None, include).text()
+        files = TL.Printer(prog, None, include is True, include == 'compact').text()
         try:
             dump = native_compile(wd, files, 'm', tag=name)
         except Exception as ex:
@@ -220,30 +320,37 @@ def build_jobs(prop, tier, seed, wd, entries=('h_ctv',), tags=None, only=None):
         if dump.get('crash') or not dump.get('ok'):
             problems.append({'shape': name, 'source': files, 'result': {k: dump.get(k) for k in ('crash', 'rc', 'errors', 'stderr')}})
             continue
+        wf_only = False
         try:
             data, routines, info = make_data(name, prog, include, dump, kv, nev)
         except Exception as ex:
-            problems.append({'shape': name, 'source': files, 'result': 'reference/bytecode mismatch: %s' % ex}); continue
+            problems.append({'shape': name, 'source': files, 'result': 'reference/bytecode mismatch: %s' % ex, 'prog': prog, 'include': include})
+            if 'h_wf' not in entries: continue
+            data, info = wf_only_data(name, dump); routines = []; wf_only = True
         dpath = os.path.join(wd, 'ctv_%s.hpp' % name)
         open(dpath, 'w').write(data)
         defines = ['CTV_DATA="%s"' % dpath, 'MINISTL_VEC_CAP=%d' % (info['routines'] + 1), 'MINISTL_STR_CAP=12', 'MINISTL_MAP_CAP=%d' % max(3, len(dump['line_info']) + 1),
                    'VM_CAPS_L=%d' % info['ncode'], 'VM_CAPS_DW=%d' % info['dw'], 'VM_CAPS_NSITE=%d' % max(1, len(dump['line_info']))]
         ents = []
-        for entry in entries:
+        for entry in (('h_wf',) if wf_only else entries):
             if entry == 'h_ctv_hist':
                 # reset points: inside the first callee (right after the first EXEC) and after about half of the straight-line run
                 inside = steps_until_inside_callee(dump['code'])
                 k1s = sorted(set(([inside] if inside else []) + [max(2, len(dump['code']) // 2)]))
                 if tier == 'quick': k1s = k1s[:1]
                 ents += [(entry, k1) for k1 in k1s]
+            elif entry == 'h_sim':
+                nops = sum(len(r['code']) for r in routines)
+                if nops > 40: problems.append('%s: %d reference positions > 40 simulation entries' % (name, nops))
+                ents += [('h_sim_%d' % k, None) for k in range(min(nops, 40))]
             else: ents.append((entry, None))
         for entry, k1 in ents:
-            j = fw.Job('ctv.%s.%s%s' % (name, entry, '' if k1 is None else '.k%d' % k1), H, entry, tus=TUS, defines=defines + ([] if k1 is None else ['CTV_K1=%d' % k1]), caps='caps_ctv.hpp', unwind=info['maxfs'] + 2, unwindset={'_ZL15run_and_compareRN4Theo2VMEb.0': kv + 1}, tags=tags or [prop],
+            j = fw.Job('ctv.%s.%s%s' % (name, entry, '' if k1 is None else '.k%d' % k1), H, entry, tus=TUS, defines=defines + ([] if k1 is None else ['CTV_K1=%d' % k1]) + (['CTV_FLAT_TABLES=1'] if entry.startswith('h_sim') else []), caps='caps_ctv.hpp', unwind=info['maxfs'] + 2, unwindset=dict([('_ZL15run_and_compareRN4Theo2VMEb.0', kv + 1)] + [('_ZL14sim_obligationii.%d' % q, 24) for q in range(8)]), tags=tags or [prop],
                        timeout=600 if tier == 'quick' else 1500,
                        what='shape %s: real VM on the natively compiled program (every literal symbolic) vs reference interpreter; stepping run' % name,
                        bounds='%d VM steps, %d reference steps, %d literals (31-bit symbolic), %d instructions, <= %d stops' % (kv, kv, info['nlit'], info['ncode'], nev),
                        functions=['Theo::VM::executeSingle', 'Theo::VM::getCurrentBreak', 'Theo::VM::setSteppingMode', 'Theo::compile (native, per shape)'],
-                       build_key=('ctv', name, k1), extra=['--object-bits', '12'])
+                       build_key=('ctv', name, k1, entry.startswith('h_sim')), extra=['--object-bits', '12'])
             jobs.append(j)
         meta[name] = {'prog': prog, 'include': include, 'files': files, 'routines': routines, 'info': info}
     return jobs, meta, problems
@@ -261,8 +368,7 @@ def run_family(prop, tier, seed, wd, out, entries, loopy=False, tags=None):
         if j.entry == 'h_wf': j.native = False
     fw.run_jobs(prop, jobs, wd, workers=8)
     fw.classify(prop, jobs, wd, out)
-    for pr in problems:
-        out.inconclusive.append('shape could not be compiled natively: %s' % json.dumps(pr)[:400])
+    confirm_problems(prop, wd, problems, out)
     return {'programs': len(set(j.name.split('.')[1] for j in jobs)), 'shapes': sorted(set(j.name.split('.')[1] for j in jobs))}
 
 
@@ -278,3 +384,65 @@ def semantics_obligations(prop, tier, seed, wd, out):
 
 def wf_obligations(prop, tier, seed, wd, out):
     return run_family(prop, tier, seed, wd, out, ('h_wf',), loopy=True)
+
+
+def replay_concrete(wd, prog, include, lits, tag='replay'):
+    """public-API replay: print the shape with concrete literals, compile and run it with the sanitized native build of /repo (complete stepping
+    run), compare with the reference interpreter.  Returns None if everything agrees, else a description of the first difference."""
+    files = TL.Printer(prog, lits, include is True, include == 'compact').text()
+    try:
+        d = native_compile(wd, files, 'm', run_steps=50000, tag=tag, sanitize=True)
+    except Exception as ex:
+        return 'native build/run failed: %s' % str(ex)[:300]
+    if d.get('crash'): return 'native run crashed (rc %s): %s' % (d.get('rc'), (d.get('stderr') or '')[-300:])
+    if not d.get('ok'): return 'rejected by the compiler: %s' % json.dumps(d.get('errors'))[:300]
+    ref = TL.interpret(TL.resolve_calls(TL.RefCompiler(prog, include is True, include == 'compact')), lits, 20000)
+    if ref['out_of_range'] or not ref['done']: return None      # outside the property's domain (values >= 2^31-1) or not halting within the budget
+    if not d.get('done'): return 'reference halts after %d steps, the VM does not halt within 50000 steps' % ref['steps']
+    def sub(rv, vv):
+        if len(rv) != len(vv): return 'activation count %d vs %d' % (len(vv), len(rv))
+        for k, (a, b) in enumerate(zip(rv, vv)):
+            for name, val in a.items():
+                if name not in b: return 'variable %s missing from the view of activation %d' % (name, k)
+                if b[name] != val: return 'variable %s of activation %d is %s, reference %s' % (name, k, b[name], val)
+        return None
+    if include != 'compact':
+        if [(e['file'], e['line']) for e in ref['events']] != [(e['file'], e['line']) for e in d['stops']]:
+            return 'stops %s, reference line events %s' % ([(e['file'], e['line']) for e in d['stops']][:12], [(e['file'], e['line']) for e in ref['events']][:12])
+        for k, (a, b) in enumerate(zip(ref['events'], d['stops'])):
+            m = sub(a['views'], b['views'])
+            if m: return 'at stop %d (%s:%d): %s' % (k, a['file'], a['line'], m)
+    m = sub(ref['final'], d['final'])
+    if m: return 'at the end: ' + m
+    if d.get('max_depth', 0) > len(prog['defs']) + 1: return 'activation stack depth %d > definitions + 1' % d['max_depth']
+    return None
+
+
+def confirm_problems(prop, wd, problems, out):
+    """a shape whose compiler output cannot be matched with the reference side (routine count, loop counters, ...) is replayed concretely through
+    the public API: a reproduced difference is a violation, otherwise the shape is inconclusive"""
+    for pr in problems:
+        if not isinstance(pr, dict) or 'prog' not in pr:
+            out.inconclusive.append('shape could not be compiled natively: %s' % json.dumps(pr)[:400]); continue
+        nl = nlits(pr['prog']); found = None
+        for lits in ([2] * nl, [3] * nl, list(range(1, nl + 1)), [1] * nl):
+            m = replay_concrete(wd, pr['prog'], pr['include'], lits, tag='fb_' + pr['shape'])
+            if m: found = (lits, m); break
+        if found:
+            os.makedirs(fw.REPLAYS, exist_ok=True)
+            rp = os.path.join(fw.REPLAYS, '%s-%s.json' % (prop, hashlib.md5((pr['shape'] + str(found[0])).encode()).hexdigest()[:10]))
+            json.dump({'module': 'ctv', 'property': prop, 'shape': pr['shape'], 'prog': pr['prog'], 'include': pr['include'], 'lits': found[0], 'difference': found[1], 'structural_problem': pr['result']}, open(rp, 'w'), indent=1)
+            out.violations.append({'property': prop, 'job': 'ctv.%s.structure' % pr['shape'], 'assertion': '%s (%s)' % (found[1], pr['result']), 'replay': rp, 'confirmed': True, 'cex': {'lits': found[0]}})
+        else:
+            out.inconclusive.append('shape %s: compiler output could not be matched with the reference side (%s) and the concrete public-API replay showed no difference' % (pr['shape'], pr['result']))
+
+
+def replay(r):
+    wd = fw.workdir('replay')
+    try:
+        m = replay_concrete(wd, r['prog'], r['include'], r['lits'])
+    finally:
+        import shutil; shutil.rmtree(wd, ignore_errors=True)
+    print('difference: %s' % m)
+    print('REPRODUCED' if m else 'NOT REPRODUCED')
+    return 1 if m else 0
